@@ -282,6 +282,7 @@ CLAIMS.update({
                 'in the model and compared with the real handleForwardTSN / handleIForwardTSN by the direct-drive receiver harness (`ar`), whose generator fills the backlog on purpose; predicate [C07] '
                 'on the implementation outputs: after a taken FORWARD-TSN every named stream is registered, a dropped one left cum / queue / window / ack state as they were and is only dropped with a '
                 'full backlog. '
+                'KNOWN FINDING D24 (replayed every run, witness corpus/C01/known/d24_forward_tsn_after_reset.ops, decided on the model: C07_forward_after_reset_witness): a FORWARD-TSN / I-FORWARD-TSN entry that stems from an abandoned message of a stream incarnation the receiver has ALREADY reset (the sender\'s cumulative ack lags, createForwardTSN lists every abandoned chunk above it) re-creates the stream and moves the new incarnation\'s cursor: the first messages written after the reset are acknowledged and dropped. The predicates report exactly this situation under the class [D24:forward after reset]; every other acknowledged-and-not-kept chunk still fails the check. '
                 'NOT covered by theorems: that nothing which was not abandoned is purged inside the reassembly queues (forwardTSNFor*), and the composition of both halves. '
                 'SYSTEM LEVEL (exploration, synctest e2e): ' + CLAIMS['C07']['text'],
         'note': SENDER_NOTE + ' The FORWARD-TSN comparison is on the decoded chunk (new cumulative TSN, stream list sorted by stream id). ' + E2E_NOTE,
@@ -380,7 +381,8 @@ CLAIMS['C01']['text'] = CLAIMS['C01']['text'].replace(
     'sharing the TSN space; initial TSN anywhere incl. the wrap; fewer than 2^31 TSNs in all), interleaved with reads of any buffer size, accept/open/gather/ticks/state changes, the successful '
     'reads on each ordered stream form a prefix of its messages - composition of C01_dedup with the reassembly refinements, under the 2^15 (SSN) / 2^31 (MID) window hypothesis (D15). '
     'Executable delivery predicate on the real association against generator ground truth. NOT covered: packetize/TSN assignment on the SEND side (C01_packetize_wf, C01_tsn_assignment), '
-    'wire content, FORWARD-TSN / reset in the prefix theorem (reliable streams only), and the two-endpoint NetSys invariant (C01_netsys_prefix).')
+    'wire content, FORWARD-TSN / reset in the prefix theorem (reliable streams only), and the two-endpoint NetSys invariant (C01_netsys_prefix). '
+    'KNOWN FINDING D24 (replayed every run, witness corpus/C01/known/d24_forward_tsn_after_reset.ops, decided on the model: C07_forward_after_reset_witness): a FORWARD-TSN / I-FORWARD-TSN entry that stems from an abandoned message of a stream incarnation the receiver has ALREADY reset (the sender\'s cumulative ack lags, createForwardTSN lists every abandoned chunk above it) re-creates the stream and moves the new incarnation\'s cursor: the first messages written after the reset are acknowledged and dropped. The predicates report exactly this situation under the class [D24:forward after reset]; every other acknowledged-and-not-kept chunk still fails the check. ')
 CLAIMS['C01']['note'] += RECV_NOTE
 if 'C03' in CLAIMS:
     CLAIMS['C03']['text'] += (' RECEIVE HALF (Props/C03recv.lean): C03_recv_total - no op list drives the receive-half model into its explicit panic outcome (the two empty-slice accesses of '
